@@ -7,6 +7,7 @@ import AnySyncModel.Driver.Tree
 import AnySyncModel.Driver.Sync
 import AnySyncModel.Driver.PubSub
 import AnySyncModel.Driver.Keys
+import AnySyncModel.Driver.Ldiff
 /-!
 `modeld <area>`: reads one operation per line on stdin, prints exactly one line per operation.
 Stateless areas expose `step : String → String`; stateful areas expose
@@ -42,4 +43,5 @@ def main (args : List String) : IO UInt32 := do
   | ["sync"] => loopState stdin stdout Driver.Sync.step none; return 0
   | ["pubsub"] => loopState stdin stdout Driver.PubSub.step Driver.PubSub.init; return 0
   | ["keys"] => loopState stdin stdout Driver.Keys.step Driver.Keys.init; return 0
+  | ["ldiff"] => loopState stdin stdout Driver.Ldiff.step Driver.Ldiff.init; return 0
   | _ => IO.eprintln s!"modeld: unknown area {args}"; return 2
